@@ -794,7 +794,7 @@ class C09(Monitor):
                 avail.append("plainfunc")
                 avail.append("named")
                 if m != "apply":
-                    avail += ["nc0", "ncneg"]
+                    avail += ["nc0", "ncneg", "emptylist"]
                 avail += [f"dup:{i}" for i in range(len(live_names))]
             for n in range(0, len(avail) + 1):
                 for sub in itertools.combinations(avail, n):
@@ -868,7 +868,7 @@ class C09(Monitor):
             return
         if "locked" in sub:
             pool.lock()
-        causes = {("dupname" if c.startswith("dup:") else c) for c in sub} - {"named"}
+        causes = {("dupname" if c.startswith("dup:") else c) for c in sub} - {"named", "emptylist"}
         # whether the pool is locked is the harness' knowledge (last of lock()/unlock()/gather_and_close()), not the pool's answer
         if p in w.locked_pools or "locked" in sub:
             causes.add("locked")
@@ -902,7 +902,8 @@ class C09(Monitor):
             elif m == "start":
                 pool.start(2)
             else:
-                getattr(pool, m)(func, w._make_iter(req), num_concurrent=nc, **kw)
+                # ("emptylist": the iterable is an empty sized collection instead of a generator - no cause of rejection)
+                getattr(pool, m)(func, [] if "emptylist" in sub else w._make_iter(req), num_concurrent=nc, **kw)
         except Exception as e:
             exc = e
         after = self.obs(p)
@@ -1136,7 +1137,10 @@ class C12(Monitor):
     def failed_known(self, p):
         """failed tasks (coroutine raised) that the pool still remembers as ended"""
         w = self.w
-        return {k for k, h in w.exited.items() if k[0] == p and h == "exc" and w.classify(k) == "ended"}
+        # (remembered by the pool according to its own answer, or - harness knowledge - not covered by any flush() yet:
+        # only flush() and gather_and_close() forget tasks)
+        return {k for k, h in w.exited.items() if k[0] == p and h == "exc"
+                and (w.classify(k) == "ended" or (k not in w.flush_covered and p not in w.closing and p not in w.closed_pools))}
 
     def before_op(self, i, op):
         w = self.w
